@@ -38,6 +38,7 @@ type Program struct {
 	pureFuncs  map[string]bool
 	noNilCheckPkgs map[string]bool // packages whose functions are verified under "pointers that are dereferenced are non-nil"
 	smallInlinePkgs map[string]int  // package path -> max blocks for inlining (overrides inlineLimit)
+	forceInline     map[string]bool // new contract-less helpers that are checked in the context of their callers
 	checkSharedWrites bool // C06: stores into shared input structures must target objects allocated by the activation
 	checkQuotes bool // C05: emit quote-free obligations where program text is put between Coq quotes
 	checkMentions bool // C04: emit dep-recorded obligations at constructions of coq name types
@@ -376,6 +377,9 @@ var inlineLibPkgs = map[string]bool{"encoding/binary": true}
 func (p *Program) inlinableStatic(fn *ssa.Function) bool {
 	if len(fn.Blocks) == 0 {
 		return false
+	}
+	if p.forceInline[fn.String()] {
+		return true
 	}
 	limit := p.inlineLimit
 	if l, ok := p.smallInlinePkgs[p.pkgPathOf(fn)]; ok {
